@@ -336,6 +336,49 @@ def large_case(rng, kinds=("enfa", "nfa", "dfa"), vcs=("str", "int")):
     return case
 
 
+def word_chain_case(n=1500):
+    """an epsilon-NFA for ONE word of n letters (a simple path of n+1 states, every tenth step an epsilon move)"""
+    trans = []
+    for i in range(n):
+        trans.append([i, i % 2, i + 1])
+    case = {"kind": "enfa", "n": n + 1, "k": 2, "start": [0], "final": [n], "trans": trans, "extra": [], "vc": "int",
+            "token": True, "scale": "word_chain", "long_words": [[i % 2 for i in range(n)], [i % 2 for i in range(n - 1)]]}
+    return case
+
+
+def many_classes_case(rng, n=450, k=3):
+    """a partial DFA with a few hundred pairwise inequivalent states (a counter with random chords): minimisation keeps
+    more than 256 classes"""
+    trans = []
+    for i in range(n):
+        trans.append([i, 0, (i + 1) % n])
+        trans.append([i, 1, (2 * i) % n])
+        if rng.random() < 0.5:
+            trans.append([i, 2, rng.randrange(n)])
+    finals = sorted({0} | {i for i in range(n) if rng.random() < 0.03})
+    longs = [[rng.randrange(k) for _ in range(rng.randint(3, 9))] for _ in range(40)]
+    return {"kind": "dfa", "n": n, "k": k, "start": [0], "final": finals, "trans": trans, "extra": [], "vc": "int",
+            "token": False, "scale": "many_classes", "long_words": longs}
+
+
+def many_symbols_case(rng, k=70):
+    """five states over seventy symbols; the states are told apart only by the symbols with the largest indices"""
+    n = 5
+    trans = []
+    for i in range(n):
+        for a in range(k):
+            trans.append([i, a, (i + 1) % n if a < 64 else (i * 2 + a) % n])
+    return {"kind": "dfa", "n": n, "k": k, "start": [0], "final": [n - 1], "trans": trans, "extra": [], "vc": "int",
+            "token": False, "scale": "many_symbols", "manysyms": True,
+            "long_words": [[rng.randrange(k) for _ in range(rng.randint(1, 4))] for _ in range(60)]}
+
+
+def counter_case(m, vc="int"):
+    """the counter modulo m over one symbol (m states), final when the count is 0"""
+    return {"kind": "dfa", "n": m, "k": 1, "start": [0], "final": [0], "trans": [[i, 0, (i + 1) % m] for i in range(m)],
+            "extra": [], "vc": vc, "token": True, "scale": "counter"}
+
+
 def long_words(case):
     return [[aval(case, j) for j in w] for w in case.get("long_words", ())]
 
